@@ -70,6 +70,7 @@ type Result struct {
 	SubSeed    uint64              `json:"sub_seed,omitempty"`
 	Digest     string              `json:"digest,omitempty"`
 	Spin       string              `json:"spin,omitempty"`
+	LockWait   string              `json:"lockwait,omitempty"`
 	// filled by the driver
 	exit    int
 	crashed bool
@@ -123,6 +124,36 @@ var outSeq struct {
 
 // runWorker executes one run in a fresh worker process.
 func runWorker(spec Spec) *Result {
+	res := runWorkerEnv(spec)
+	if strings.HasPrefix(res.LockWait, "self:") && res.Spin == "" && len(res.Violations) == 0 {
+		// the waiting goroutine itself runs, further out, a method of the very object whose lock it waits
+		// for: nobody else can release it
+		where := strings.TrimPrefix(res.LockWait, "self:")
+		cls := where
+		if i := strings.Index(cls, " called"); i > 0 {
+			cls = cls[:i]
+		}
+		res.Infra = ""
+		res.Violations = append(res.Violations, sim.Violation{Property: spec.Prop, Class: "no_progress:deadlock:" + cls, Detail: "after 20 s of real time the run had not reached its next quiescent point: no goroutine was running, and in three stack samples taken 0.5 s apart one goroutine waited for a mutex inside " + where + " (a lock taken twice by the same goroutine: the connection's goroutine is stuck for ever, everything that needs that lock after it as well)"})
+		res.crashed = true
+		return res
+	}
+	if res.LockWait != "" && res.Spin == "" && len(res.Violations) == 0 {
+		// The run never reached its next quiescent point and a MOSN goroutine waited for a mutex all
+		// along. Under the simulator that can be an artefact (the holder parked at a yield point), so the
+		// run is repeated with parking switched off: if a MOSN goroutine still waits for a mutex for 20 s
+		// nobody but the system under test holds it — a deadlock.
+		r2 := runWorkerEnv(spec, "VERIF_NOPARK=1")
+		if r2.LockWait != "" && r2.Spin == "" {
+			res.Infra = ""
+			res.Violations = append(res.Violations, sim.Violation{Property: spec.Prop, Class: "no_progress:deadlock:" + r2.LockWait, Detail: "after 20 s of real time the run had not reached its next quiescent point: no goroutine was running and one waited for a mutex inside " + r2.LockWait + " in three stack samples taken 0.5 s apart, also when the run was repeated with no goroutine ever parked by the simulator (a lock that is never released)"})
+			res.crashed = true
+		}
+	}
+	return res
+}
+
+func runWorkerEnv(spec Spec, extraEnv ...string) *Result {
 	outSeq.Lock()
 	outSeq.n++
 	n := outSeq.n
@@ -135,6 +166,7 @@ func runWorker(spec Spec) *Result {
 		gmp = "1"
 	}
 	cmd.Env = append(os.Environ(), "VERIF_SPEC="+string(sb), "GOGC=off", "GOMAXPROCS="+gmp, "VERIF_GOMAXPROCS="+gmp)
+	cmd.Env = append(cmd.Env, extraEnv...)
 	var stderr strings.Builder
 	cmd.Stderr = &stderr
 	cmd.Stdout = &stderr
@@ -749,6 +781,13 @@ func cmdCheck(args []string) int {
 		}
 		if exit == 0 && (len(a.infra) > a.runs/100+2) {
 			exit = 2
+		}
+		for _, l := range a.infra {
+			// a worker that died without a result and without a MOSN frame at the top of its trace is a
+			// harness error (a panic in a peer or an oracle): never tolerated, whatever its rate
+			if exit == 0 && (strings.Contains(l, "worker died without result") || strings.Contains(l, "panic in harness")) {
+				exit = 2
+			}
 		}
 	}
 	for _, l := range lines {
